@@ -64,6 +64,11 @@ def newAlphabet (letters : List UInt8) (gap ambiguous : UInt8) (cased : Bool) : 
     .ok { letters := lo ++ up, length := letters.length, valid := t.valid, index := t.index,
           gap, ambiguous, cased }
 
+/-- membership of a letter in a definition — in either case for case-insensitive alphabets
+    ("a letter is valid exactly when it appears in the definition") -/
+def inDefinition (cased : Bool) (letters : List UInt8) (l : UInt8) : Bool :=
+  if cased then letters.contains l else letters.any fun x => toLower x == toLower l
+
 def Alpha.isValid (a : Alpha) (l : Letter) : Bool := a.valid l
 def Alpha.indexOf (a : Alpha) (l : Letter) : Int := a.index l
 /-- `Letter(i)`: `a.letters[:a.length][i]`, which panics out of range (→ `none`). -/
@@ -95,11 +100,14 @@ def checkBijection (pair : UInt8 → UInt8) : List UInt8 → List UInt8 → Bool
       (l == pair (pair l)) && (c == pair (pair c)) && checkBijection pair s cs
   | _, _ => true
 
+/-- the tables before the fill loop: `pair[i] = i`, `ok[i] = false` -/
+def initPairs : PTabs := { pair := fun b => b, ok := fun _ => false }
+
 def newPairing (s c : List UInt8) : Except Err Pairing :=
   if s.length ≠ c.length then .error .lengthMismatch
   else if s.any (· ≥ 128) || c.any (· ≥ 128) then .error .pairNonASCII
   else
-    let t := fillPairs s c { pair := fun b => b, ok := fun _ => false }
+    let t := fillPairs s c initPairs
     if checkBijection t.pair s c then
       .ok { pair := t.pair, ok := t.ok,
             complements := fun b => if t.ok b then t.pair b else t.pair b ||| 128 }
